@@ -167,8 +167,11 @@ def parse_cbmc(text):
                 m = re.match(r"^\s*var_0\[(\d+)l?\]=(\d+)ul", line)
                 if m and int(m.group(1)) not in el:
                     el[int(m.group(1))] = int(m.group(2))
-        if el and sorted(el) == list(range(len(el))):
-            traces[prop] = ",".join("%x" % el[i] for i in range(len(el)))
+        if el:
+            # CBMC leaves out elements the property does not depend on (sliced): any value does
+            m = re.search(r"function kani::any_raw_array::<u64, (\d+)>", blk)
+            n = int(m.group(1)) if m else max(el) + 1
+            traces[prop] = ",".join("%x" % el.get(i, 0) for i in range(n))
     done = ("VERIFICATION SUCCESSFUL" in text) or ("VERIFICATION FAILED" in text)
     return checks, stats, traces, done
 
